@@ -319,7 +319,7 @@ func c07Run(c *fw.Ctx) error {
 		sizes := allowedSizes(p)
 		for _, lb := range sizes {
 			for _, rb := range sizes {
-				for k := 0; k < c.Pick(2, 30); k++ {
+				for k := 0; k < c.Pick(2, 12); k++ {
 					i := idx
 					idx++
 					if int(i%int64(c.NBatch)) != c.Batch || i < c.Resume {
